@@ -43,8 +43,7 @@ class Link:
 
     def send(self, msg, timeout=None):
         self.frames.append({"id": msg.arbitration_id, "d": B(msg.data), "rtr": bool(msg.is_remote_frame)})
-        if not msg.is_remote_frame:
-            self.forward(msg.arbitration_id, bytes(msg.data))
+        self.forward(msg)
 
     def send_periodic(self, *a, **k):
         raise RuntimeError("not used")
@@ -63,8 +62,17 @@ def run_case(case: dict) -> dict:
     frames = []
     clock = {"ts": 0}
     net1, net2 = canopen.Network(), canopen.Network()
-    net1.bus = Link(frames, lambda cid, d: net2.notify(cid, bytearray(d), clock["ts"]))
-    net2.bus = Link(frames, lambda cid, d: None)
+    import can
+
+    def to(net):
+        # every frame reaches the peer through its MessageListener, as on a real python-can bus
+        def fwd(msg):
+            net.listeners[0].on_message_received(
+                can.Message(arbitration_id=msg.arbitration_id, data=bytes(msg.data), timestamp=clock["ts"],
+                            is_extended_id=msg.is_extended_id, is_remote_frame=msg.is_remote_frame))
+        return fwd
+    net1.bus = Link(frames, to(net2))
+    net2.bus = Link(frames, to(net1))
     prod = canopen.LocalNode(case.get("nid", 4), od)
     net1.add_node(prod)
     consn = canopen.RemoteNode(case.get("nid", 4), od)
@@ -78,6 +86,7 @@ def run_case(case: dict) -> dict:
             full = n == 8 * enc.NUM_SIZE[t]
             pm.add_variable(0x2000 + i, 0, None if full else n)
     add_vars(pmap)
+    pmap.subscribe()      # as after tpdo.read() / save(): the producing map listens on its own COB-ID
     cmaps, cbcount = [], []
     for k, c in enumerate(cons_cfg):
         pm = consn.tpdo[k + 1]
@@ -130,8 +139,10 @@ def run_case(case: dict) -> dict:
             ev.append({"e": "recfg", "k": op["k"], "cob": op["cob"], "enabled": op["enabled"], "rtr": op["rtr"]})
         elif o == "rtr":
             del frames[:]
+            before = bytes(pmap.data)
             cmaps[op["k"] - 1].remote_request()
-            ev.append({"e": "rtr", "k": op["k"], "frames": list(frames)})
+            ev.append({"e": "rtr", "k": op["k"], "frames": list(frames), "pdata_kept": bytes(pmap.data) == before,
+                       "cons": cons_proj()})
         elif o == "wait":
             pm = cmaps[op["k"] - 1]
             res = {}
